@@ -221,6 +221,72 @@ def c15_state_case(args):
         shutil.rmtree(d, ignore_errors=True)
 
 
+def c15_config_case(args):
+    """in-process (what -p 1 does): two files of a globbed file_list entry that carries rule configuration, one of them with
+    its own file_rules entry, processed with ONE configuration object; the configuration object must not change and the result
+    of the second file must equal its result when it is processed first"""
+    paths, seed = args
+    import importlib
+
+    from vsg import apply_rules, config
+
+    vf = importlib.import_module("vsg.vhdlFile.vhdlFile")
+    r = random.Random(seed)
+    d = tempfile.mkdtemp(prefix="c15c_")
+    cwd = os.getcwd()
+    probs = []
+    try:
+        os.mkdir(os.path.join(d, "src"))
+        names = ["src/alpha.vhd", "src/beta.vhd"]
+        for n, p in zip(names, paths[:2]):
+            shutil.copyfile(p, os.path.join(d, n))
+        rules = ["entity_004", "entity_008", "architecture_010", "process_012", "signal_007", "port_010", "library_004", "case_002"]
+        cfg = {
+            "file_list": [{"src/*.vhd": {"rule": {r.choice(rules): {"disable": r.random() < 0.5}}}}],
+            "file_rules": [{names[0]: {"rule": {x: {"disable": True} for x in r.sample(rules, 3)}}}],
+        }
+        json.dump(cfg, open(os.path.join(d, "c.json"), "w"))
+        os.chdir(d)
+
+        def fresh():
+            cla = vf.command_line_args()
+            cla.style = None
+            cla.configuration = ["c.json"]
+            cla.filename = []
+            cla.junit = None
+            cla.json = "x"
+            cla.quality_report = None
+            cla.local_rules = None
+            cla.fix = False
+            cla.backup = False
+            cla.all_phases = True
+            cla.fix_phase = 7
+            cla.output_format = "vsg"
+            cla.fix_only = None
+            return cla, config.New(cla)
+
+        def run(cla, oConfig, i, n):
+            x = apply_rules.apply_rules(cla, oConfig, (i, n))
+            return (x[0], x[2], x[3], x[4])
+
+        cla, oConfig = fresh()
+        before = repr(oConfig.dConfig)
+        run(cla, oConfig, 0, names[0])
+        if repr(oConfig.dConfig) != before:
+            probs.append("apply_rules changed the shared configuration object while processing %s" % names[0])
+        second = run(cla, oConfig, 1, names[1])
+        cla2, oConfig2 = fresh()
+        alone = run(cla2, oConfig2, 1, names[1])
+        if second != alone:
+            probs.append("the result of %s depends on whether %s was processed before it with the same configuration object (-p 1)" % (names[1], names[0]))
+        return (paths, probs)
+    except Exception as e:  # noqa
+        return (paths, ["scenario raised %s: %s" % (type(e).__name__, e)])
+    finally:
+        os.chdir(cwd)
+        shutil.rmtree(d, ignore_errors=True)
+
+
 def c15_case(args):
     paths, seed = args
     r = random.Random(seed)
@@ -288,6 +354,50 @@ def c15_case(args):
 
 
 # ------------------------------------------------------------------------------------------------------ C17
+def _rule_states(style, cfgs):
+    import importlib
+
+    from vsg import config, rule_list, vhdlFile
+
+    vf = importlib.import_module("vsg.vhdlFile.vhdlFile")
+    cla = vf.command_line_args()
+    cla.style = style
+    cla.configuration = list(cfgs)
+    cla.junit = None
+    oConfig = config.New(cla)
+    oFile = vhdlFile.vhdlFile([""], configuration=oConfig)
+    oRules = rule_list.rule_list(oFile, oConfig.severity_list)
+    oRules.configure(oConfig)
+    out = {}
+    for r in oRules.rules:
+        st = {}
+        for k, v in vars(r).items():
+            if k in ("violations", "options", "severity"):
+                continue
+            if isinstance(v, (str, int, bool, float, type(None))):
+                st[k] = v
+            elif isinstance(v, (list, tuple)) and all(isinstance(x, (str, int, bool, float, type(None))) for x in v):
+                st[k] = list(v)
+        st["severity"] = (r.severity.name, r.severity.type)
+        st["options"] = [(o.name, o.value) for o in getattr(r, "options", [])]
+        out[r.unique_id] = st
+    return out, dict(oConfig.dIndent) if isinstance(oConfig.dIndent, dict) else None
+
+
+def effective_difference(style, cp, emitted):
+    a, ia = _rule_states(style, [cp])
+    b, ib = _rule_states(None, [emitted])
+    for rid in sorted(a):
+        if rid not in b:
+            return "rule %s is missing under the emitted configuration" % rid
+        if a[rid] != b[rid]:
+            ks = [k for k in a[rid] if a[rid][k] != b[rid].get(k)][:3]
+            return "rule %s is configured differently under the emitted configuration: %s" % (rid, ", ".join("%s=%r vs %r" % (k, a[rid][k], b[rid].get(k)) for k in ks))
+    if ia != ib:
+        return "the indent table differs under the emitted configuration"
+    return None
+
+
 def c17_case(args):
     style, seed, sample = args
     r = random.Random(seed)
@@ -338,6 +448,15 @@ def c17_case(args):
         if p.returncode != 0 or not os.path.exists(o2):
             probs.append("emitted configuration cannot be read back: rc=%d %s" % (p.returncode, (p.stdout + p.stderr).strip()[-160:]))
             return ((style, seed, user_sev), probs)
+        # the effective configuration itself: every rule object configured from (style, stack) and from the emitted file must be
+        # in the same state (all simple attributes: phase, SUB-phase, disable, fixable, options, severity, ...), not only in the
+        # names the emitted file happens to carry
+        try:
+            diff = effective_difference(style, cp, o1)
+        except Exception as e:  # noqa
+            diff = "comparing the effective configurations raised %s: %s" % (type(e).__name__, e)
+        if diff:
+            probs.append(diff)
         a, b = json.load(open(o1)), json.load(open(o2))
         if a != b:
             ks = [k for k in a.get("rule", {}) if a["rule"][k] != b.get("rule", {}).get(k)][:2]
